@@ -361,7 +361,6 @@ def run(ctx):
     assert a.viol_count == b.viol_count and a.counters == b.counters
     cases.sort(key=lambda c: -int(np.prod(c['shape'])) * (20 if c['kind'] == 'format' else 1))
     explore.pmap(ctx, _dispatch, cases, chunk=1)
-    shutil.rmtree(SCRATCH, ignore_errors=True)
     ctx.tick(evaluations=len(cases))
     for c in (cases[0], cases[len(cases) // 2], cases[-1]):
         ctx.sample(c)
